@@ -182,6 +182,10 @@ static void apply(hwloc_topology_t *tp, struct mmodel *m, const struct mop *o, i
 }
 
 /* ---------------------------------------------------------------- query battery */
+/* which query kinds the battery runs: 1 get_value, 2 get_initiators, 4 best_initiator, 8 get_targets, 16 best_target, 32 the rest.
+ * Every getter refreshes the attribute lazily, so the full battery (get_value first) would hide a getter that forgets to:
+ * after a restrict / dup / XML switch each kind is also run FIRST, alone, on a freshly rebuilt state. */
+static int QMASK = 0x3f;
 static int better(unsigned long fl, hwloc_uint64_t a, hwloc_uint64_t b) { return (fl & HWLOC_MEMATTR_FLAG_HIGHER_FIRST) ? a > b : a < b; }
 
 static void battery(hwloc_topology_t t, struct mmodel *m)
@@ -207,7 +211,7 @@ static void battery(hwloc_topology_t t, struct mmodel *m)
     /* get_value for every (target, query initiator) */
     for (int tc = 0; tc < 5; tc++) {
       hwloc_obj_t tg = make_target(t, tc); if (!tg) continue;
-      for (unsigned qi = 0; qi < 7; qi++) {
+      for (unsigned qi = 0; (QMASK & 1) && qi < 7; qi++) {
         struct hwloc_location loc; hwloc_bitmap_t tofree; int itype; uint64_t iset; hwloc_uint64_t igp;
         int ic = make_initiator(t, QINIT[qi], &loc, &tofree, &itype, &iset, &igp);
         if (ic < 0) { hwloc_bitmap_free(tofree); continue; }
@@ -225,7 +229,7 @@ static void battery(hwloc_topology_t t, struct mmodel *m)
         struct entry *exp[MAXE]; unsigned ne = 0;
         if (need) for (int i = 0; i < m->ne; i++) if (m->e[i].attr == code && m->e[i].tgp == tg->gp_index) exp[ne++] = &m->e[i];
         int known_target = 0; for (int i = 0; i < m->ne; i++) if (m->e[i].attr == code && m->e[i].tgp == tg->gp_index) known_target = 1;
-        for (int mode = 0; mode < 3; mode++) {
+        for (int mode = 0; (QMASK & 2) && mode < 3; mode++) {
           unsigned cap = mode == 0 ? 0 : mode == 1 ? 1 : MAXE, nr = cap; struct hwloc_location ins[MAXE]; hwloc_uint64_t vals[MAXE];
           errno = 0;
           int rc = hwloc_memattr_get_initiators(t, id, tg, 0, &nr, cap ? ins : NULL, cap ? vals : NULL);
@@ -244,6 +248,7 @@ static void battery(hwloc_topology_t t, struct mmodel *m)
           }
         }
         /* best initiator */
+        if (QMASK & 4) {
         struct hwloc_location best; hwloc_uint64_t bv = 0; errno = 0;
         int rc = hwloc_memattr_get_best_initiator(t, id, tg, 0, &best, &bv), e = errno;
         MC.transitions++;
@@ -251,6 +256,7 @@ static void battery(hwloc_topology_t t, struct mmodel *m)
         else if (!ne) { if (rc != -1 || (e != ENOENT && e != EINVAL)) mc_violation("c14.best_initiator.none", "%s :: attr %d target %d: nothing stored but rc=%d errno=%d", mc_case_text(), code, tc, rc, e); }
         else { int optimal = rc == 0; for (unsigned k = 0; optimal && k < ne; k++) if (better(fl, exp[k]->value, bv)) optimal = 0; int exists = 0; for (unsigned k = 0; k < ne; k++) if (exp[k]->value == bv) exists = 1;
           if (!optimal || !exists) mc_violation("c14.best_initiator.optimal", "%s :: attr %d target %d: best initiator value %" PRIu64 " (rc %d) is not an optimal stored value", mc_case_text(), code, tc, bv, rc); }
+        }
       }
     }
     /* get_targets / best_target for every query initiator */
@@ -266,7 +272,7 @@ static void battery(hwloc_topology_t t, struct mmodel *m)
         int dup = 0; for (unsigned k = 0; k < ne; k++) if (etg[k] == m->e[i].tgp) dup = 1;
         if (!dup) { etg[ne] = m->e[i].tgp; eval[ne] = m->e[i].value; ne++; }
       }
-      for (int mode = 0; mode < 3; mode++) {
+      for (int mode = 0; (QMASK & 8) && mode < 3; mode++) {
         unsigned cap = mode == 0 ? 0 : mode == 1 ? 1 : MAXE, nr = cap; hwloc_obj_t tgs[MAXE]; hwloc_uint64_t vals[MAXE];
         int rc = hwloc_memattr_get_targets(t, id, ic ? &loc : NULL, 0, &nr, cap ? tgs : NULL, cap ? vals : NULL);
         MC.transitions++;
@@ -279,7 +285,7 @@ static void battery(hwloc_topology_t t, struct mmodel *m)
         }
       }
       /* best target */
-      if (!need || ic) {
+      if ((QMASK & 16) && (!need || ic)) {
         hwloc_obj_t best = NULL; hwloc_uint64_t bv = 0; errno = 0;
         int rc = hwloc_memattr_get_best_target(t, id, ic ? &loc : NULL, 0, &best, &bv), e = errno;
         MC.transitions++;
@@ -290,6 +296,7 @@ static void battery(hwloc_topology_t t, struct mmodel *m)
       hwloc_bitmap_free(tofree);
     }
   }
+  if (!(QMASK & 32)) return;
   /* local NUMA nodes: every normal object x 8 flag words, against the definition */
   {
     hwloc_obj_t *objs; unsigned n = canon_walk(t, &objs);
@@ -415,6 +422,21 @@ int main(int argc, char **argv)
         if (mc_report_faults("op") || !tn) continue;
         if (MC_TRY(120000)) { battery(tn, &mn); mc_try_end(); }
         mc_report_faults("battery");
+        /* each query kind first, alone, on a fresh copy of the state (see QMASK) */
+        if (mn.ne && (ops[oi].kind == M_RESTRICT || ops[oi].kind == M_DUP || ops[oi].kind == M_XML)) {
+          for (int qk = 1; qk <= 16; qk <<= 1) {
+            struct mmodel m2; hwloc_topology_t t2 = NULL;
+            if (MC_TRY(30000)) { t2 = build(&hn, &m2, 0); mc_try_end(); }
+            if (mc_fault[0] || !t2) { mc_fault[0] = 0; mc_clear_san(); continue; }
+            QMASK = qk;
+            if (MC_TRY(120000)) { battery(t2, &m2); mc_try_end(); }
+            QMASK = 0x3f;
+            mc_report_faults(qk == 1 ? "first-get_value" : qk == 2 ? "first-get_initiators" : qk == 4 ? "first-best_initiator" : qk == 8 ? "first-get_targets" : "first-best_target");
+            if (MC_TRY(30000)) { hwloc_topology_destroy(t2); mc_try_end(); }
+            mc_report_faults("destroy");
+            mc_count("first_query_passes", 1);
+          }
+        }
         model_key(tn, &mn, &ops[oi], &kb);
         if (strset_add(&seen, kb.s, kb.len)) { MC.states++; if (nF < 500000) F[nF++] = hn; if (MC.states % 1500 == 1) mc_sample("%s", mhist_text(&hn)); }
         if (MC_TRY(30000)) { hwloc_topology_destroy(tn); mc_try_end(); }
